@@ -20,6 +20,7 @@
 
 
 #include <cstring>
+#include <limits>
 
 
 
@@ -554,7 +555,8 @@ ElemNumber::getCountString(
         if (DoubleSupport::isNaN(theValue) == true ||
             DoubleSupport::isPositiveInfinity(theValue) == true ||
             DoubleSupport::isNegativeInfinity(theValue) == true ||
-            DoubleSupport::lessThan(theValue, 0.5) == true)
+            DoubleSupport::lessThan(theValue, 0.5) == true ||
+            theValue >= double(std::numeric_limits<CountType>::max()))    // cannot be converted to CountType
         {
             NumberToDOMString(theValue, theResult);
         }
